@@ -108,3 +108,10 @@ add("C07.idle","VH_c07_idle",SRV,sc+["server/c07.go"],expect_reach=["active"],bo
 add("C07.server_guards","VH_c07_server_guards",SRV,sc+["server/c07.go"],{"params":{"updates":2},"unwind":2200},{"params":{"updates":3},"unwind":2200},expect_reach=["ignored","limit","installed"],bounds="real BgpServer.handleFSMMessage with the peer in each of the 6 states, message older than the session or not, prefix limit 0..2, `updates` UPDATEs for distinct prefixes")
 add("C12.gr_cycle","VH_c12_gr_cycle",SRV,sc+["server/c12.go"],{"params":{},"unwind":4200},{"params":{},"unwind":4200},fixed_clock=True,expect_reach=["dropped","timer_expired","all_eor","waiting"],bounds="real BgpServer.handleFSMMessage / fsm.stateChange over a full cycle: session with 2 families and a symbolic subset of them in the peer's GR capability; 1 route per family + End-of-RIB; graceful or non-graceful loss; then restart-timer expiry, or re-establishment with symbolic partial re-announcement and End-of-RIB per family")
 add("C12.loss_classification","VH_c07_established",SRV,sc+["server/c07.go"],expect_reach=["hold_expired","notification","closed","admin_down"],bounds="classification of the loss reason by the real fsmHandler.established / recvMessageloop: every event x graceful restart / N bit negotiated or not (see C07.established)")
+API="pkg/apiutil"
+add("C18.attrs","VH_c18_attrs",API,["apiutil/c18.go"],expect_reach=["end"],bounds="MarshalPathAttributes -> UnmarshalPathAttributes, one attribute of each of 17 kinds (ORIGIN .. PMSI tunnel, 4 extended-community kinds, unknown attribute) with symbolic numeric fields; addresses concrete")
+add("C18.nlri","VH_c18_nlri",API,["apiutil/c18.go"],expect_reach=["end"],bounds="MarshalNLRI -> UnmarshalNLRI for IPv4/IPv6 prefix, labelled, VPNv4 (symbolic RD and label), FlowSpec IPv4 (symbolic operator/value) and IPv6 (symbolic offsets), RT membership (symbolic AS and target); prefixes concrete")
+add("C18.caps","VH_c18_caps",API,["apiutil/c18.go"],expect_reach=["end"],bounds="MarshalCapability -> unmarshalCapability for 8 capability kinds with symbolic fields")
+C18S="table.NewAPIPolicyFromTableStruct -> newStatementFromApiStruct for a statement: "
+add("C18.statement_actions","VH_c18_statement_roundtrip",SRV,sc+["server/c18.go"],expect_reach=["end"],pins={"aspath_len_op":1,"community_count_op":0,"origin_eq":0,"set_origin":0},bounds=C18S+"3 dispositions x MED action from a listed set of 8 texts x AS prepend (none / 3 texts x symbolic repeat) x symbolic LOCAL_PREF action and numeric conditions; origin fields and comparison operators fixed")
+add("C18.statement_conditions","VH_c18_statement_roundtrip",SRV,sc+["server/c18.go"],expect_reach=["end"],pins={"disposition":1,"med":0,"prepend_as":0},bounds=C18S+"AS_PATH length and community count conditions (4 operators each x symbolic value) x ORIGIN condition (4) x ORIGIN action (4) x symbolic LOCAL_PREF / MED conditions; other actions fixed")
